@@ -262,7 +262,7 @@ Section Lists.
       match parse_continuation next_line prepend with
       | Some cont => item_runs_off leader r prepend (if str_eqb cont [10] then S newlines else O)
       | None =>
-        if any_interrupt types BK_List after then false
+        if item_interrupt types after then false
         else match parse_marker next_line with
              | Some _ => false
              | None => match newlines with
@@ -281,8 +281,10 @@ Section Lists.
     cbn [app item_loop item_runs_off] in *.
     destruct (parse_continuation l prepend) as [cont|].
     - rewrite IH by exact H. reflexivity.
-    - change (l :: Y ++ NL :: B) with (l :: Y ++ NL :: B). rewrite any_interrupt_app.
-      destruct (any_interrupt types BK_List (l :: Y)); [reflexivity|].
+    - assert (EI : item_interrupt types (l :: Y ++ NL :: B) = item_interrupt types (l :: Y)).
+      { unfold item_interrupt. destruct (parse_marker l); [reflexivity|apply any_interrupt_app]. }
+      rewrite EI.
+      destruct (item_interrupt types (l :: Y)); [reflexivity|].
       destruct (parse_marker l) as [[[[? ?] other] ?]|]; [reflexivity|].
       destruct nl; [|reflexivity]. rewrite IH by exact H. reflexivity.
   Qed.
